@@ -394,14 +394,34 @@ def _eq_items(a, b):
     return mkbool(z3.And(*[bexpr(c) for c in conds]))
 
 
+def _retable(v, f):
+    t = v.tag
+    if t is not None and t[0] == 'tbl':
+        nt = f(t[1])
+        if nt == t[1]:
+            return v
+        if len(nt) == len(t[1]):
+            r = _select([ord(c) for c in nt], t[2]) if isinstance(t[2], SymInt) else ord(nt[t[2]])
+            if isinstance(r, SymInt):
+                r.tag = ('tbl', nt, t[2])
+            return r
+    return None
+
+
 def _lower(v):
     if isinstance(v, SymInt):
+        r = _retable(v, str.lower)
+        if r is not None:
+            return r
         return s_ite(s_and(v >= 65, v <= 90), v + 32, v)
     return v + 32 if 65 <= v <= 90 else v
 
 
 def _upper(v):
     if isinstance(v, SymInt):
+        r = _retable(v, str.upper)
+        if r is not None:
+            return r
         return s_ite(s_and(v >= 97, v <= 122), v - 32, v)
     return v - 32 if 97 <= v <= 122 else v
 
